@@ -34,15 +34,24 @@ Definition obs_view (v : view) : obs :=
 
 Definition obs_trace (vs : list view) : obs := OList (map obs_view vs).
 
-(* input: queue class, maxsize, schedule *)
-Definition input : Type := (qkind * nat * list op)%type.
+(* input: queue class, the maxsize argument, schedule *)
+Definition input : Type := (qkind * msz * list op)%type.
+
+(* a rejected constructor call shows its exception; an accepted one shows the
+   maxsize property followed by the per-operation views *)
+Definition obs_run (a : msz) (tr : nat -> list view) : obs :=
+  match ctor a with
+  | CTypeError => OTag "TypeError"
+  | CValueError => OTag "ValueError"
+  | COk m => OList (OInt (Z.of_nat m) :: map obs_view (tr m))
+  end.
 
 Definition run_case (c : input) : obs :=
-  let '(kd, m, ops) := c in obs_trace (fst (irun kd m ops i_init)).
+  let '(kd, a, ops) := c in obs_run a (fun m => fst (irun kd m ops i_init)).
 
 (* The reference run, with eager removal of timed-out waiters. *)
 Definition spec_case (c : input) : obs :=
-  let '(kd, m, ops) := c in obs_trace (fst (srun kd m ops s_init)).
+  let '(kd, a, ops) := c in obs_run a (fun m => fst (srun kd m ops s_init)).
 
 (* ---- checks stated on the observable alone ---- *)
 Definition is_internal (r : obs) : bool :=
@@ -65,9 +74,14 @@ Definition view_ok (m : nat) (o : obs) : bool :=
    effect, join tied to the unfinished count), every step respects maxsize /
    empty() / full(), and no internal failure surfaced *)
 Definition check_case (c : input) (o : obs) : bool :=
-  let '(kd, m, ops) := c in
+  let '(kd, a, ops) := c in
   obs_eqb o (spec_case c)
-  && match o with
-     | OList vs => forallb (view_ok m) vs && Nat.eqb (List.length vs) (List.length ops)
-     | _ => false
+  && match ctor a with
+     | COk m =>
+         match o with
+         | OList (OInt mm :: vs) =>
+             (mm =? Z.of_nat m)%Z && forallb (view_ok m) vs && Nat.eqb (List.length vs) (List.length ops)
+         | _ => false
+         end
+     | _ => true
      end.
